@@ -263,6 +263,14 @@ def install(sim: Sim, assign_seed: int):
     _rebind(ccomp, Client=Client, signal=signal_shim, time=time_shim,
             Popen=Popen)
 
+    import dst
+    if not dst.gate_hash_is_stable():
+        import bqskit.ir.gate as _g
+        if _g.Gate.__dict__.get('__hash__') is None:
+            raise HarnessError(
+                'bqskit was imported before dst: the stable gate hash seam '
+                'is not installed')
+
     ctr = [0]
 
     def uuid4():
